@@ -1,9 +1,11 @@
 # run configuration of C07 for bin/check (see bin/props.py)
 PROP = {
  'level': 'exploration',
- 'level_text': 'One 3-epoch fixture (real CARs, real `index gsfa`) encodes all 125 per-epoch history shapes of 0..4 entries; every (address, limit, before, until) with before/until drawn from the history is evaluated against the model slice at reader level and through the JSON-RPC handler for every non-empty subset of loaded epochs (multi-epoch requests repeated, since the response order must not depend on map iteration); the slot-bounded variant is checked on a slot grid. Exhaustive inside the stated small scope.',
- 'level_note': 'before/until signatures outside the history are not exercised (Solana requires them to be valid); completeness of the slot-bounded variant is left to C19',
- 'technique': 'runtime monitoring: small-scope exhaustive workload + reference-model oracle over the real gsfa readers and handler',
+ 'level_text': 'One 3-epoch fixture (real CARs, real `index gsfa`) encodes all 125 per-epoch history shapes of 0..4 entries; every (address, limit, before, until) with before/until drawn from the history is evaluated against the model slice at reader level and through the JSON-RPC handler for every non-empty subset of loaded epochs (multi-epoch requests repeated, since the response order must not depend on map iteration); the slot-bounded variant is checked on a slot grid. Exhaustive inside the stated small scope.  A second fixture holds one address with thousands of entries (several chained linked-log records per list): paging around every record and epoch boundary, and the same queries from 8 goroutines at once through one set of readers, also under the race detector.',
+ 'level_note': 'before/until signatures outside the history are not exercised (Solana requires them to be valid); the slot-bounded variant is judged for soundness and completeness at reader level (all readers, and the readers the server selects for the range); the streaming transport itself is C19',
+ 'technique': 'runtime monitoring: small-scope exhaustive workload + reference-model oracle over the real gsfa readers and handler; concurrent-query phase under the race detector',
  'rule': 'see parts',
- 'runs': [{'name': 'paging', 'pkg': '.', 'run': '^TestVerifC07$', 'timeout': '40m', 'timeout_thorough': '120m'}],
+ 'race_allow': [r'/gsfa\.', r'/gsfa/linkedlog\.', r'main\.\(\*MultiEpoch\)', r'main\.\(\*Epoch\)', r'/compactindexsized\.', r'/indexes\.'],
+ 'runs': [{'name': 'paging', 'pkg': '.', 'run': '^TestVerifC07(Long)?$', 'timeout': '40m', 'timeout_thorough': '120m'},
+          {'name': 'long-race', 'pkg': '.', 'run': '^TestVerifC07Long$', 'race': True, 'timeout': '40m', 'timeout_thorough': '120m', 'env': {'VERIF_PART_SUFFIX': '-race', 'VERIF_RACE': '1'}}],
 }
